@@ -151,7 +151,7 @@ impl<'a> Shard<'a> {
             match &o {
                 Outcome::Reject(k) => mon.count(&format!("verifier_error:{k}")),
                 Outcome::Panic(l) => mon.count(&format!("verifier_panic@{l}")),
-                Outcome::Budget => mon.count("verifier_exceeded_request_budget(loop)"),
+                Outcome::Budget => mon.count("observation:verifier_did_not_terminate_within_request_budget(provider-driven loop)"),
                 Outcome::Accept => {}
             }
             if let Err(r) = &verdict {
@@ -196,8 +196,15 @@ impl<'a> Shard<'a> {
                     mon.inconclusive(&format!("reference rejects an honest chain ({}; {}): {} (oracle or workload bug)", s.class, r.class, r.why));
                 }
             }
-            if matches!(o, Outcome::Accept) && verdict.is_ok() && !s.honest {
-                mon.count(&format!("accepted_by_both:{}", s.class));
+            if matches!(o, Outcome::Accept) && verdict.is_ok() {
+                // statement-conformant, but every standard certificate of the accepted chain is signed by the
+                // adversary: possible because the genesis signature does not cover the genesis certificate's own
+                // aggregate_verification_key / protocol_parameters fields, which same-epoch links trust
+                let unsigned_genesis_avk = s.class == "adv_whole_chain:GenesisEpochUnsignedAvk"
+                    || (s.class.starts_with("adv_suffix:") && s.class.ends_with("commitrehash:junction_genesis"));
+                if unsigned_genesis_avk && s.genesis_vk.to_bytes() == ctx.fam.genesis_vk.to_bytes() {
+                    mon.count("observation:adversarially_signed_chain_accepted_through_unsigned_avk_field_of_genuine_genesis(statement-conformant)");
+                }
             }
             if mon.wants_sample() && self.shard == 0 && (self.counter % 7 == 3) {
                 mon.sample(json!({"family": ctx.fam.desc, "start": short(&start.hash), "path_length": ctx.path.len(),
@@ -252,13 +259,16 @@ impl<'a> Shard<'a> {
                         mon.count(&format!("client_panic@{l}"));
                     }
                     if run.outcome == Outcome::Budget {
-                        mon.count("client_exceeded_request_budget(loop)");
+                        mon.count("observation:client_verify_chain_did_not_terminate_within_request_budget(provider-driven loop)");
+                        if std::env::var("VERIF_DEBUG").is_ok() {
+                            eprintln!("BUDGET mode={mode_name} class={} serve={} detail={} requested={:?} table={}", s.class, s.serve, s.detail, run.requested.iter().map(|h| short(h)).collect::<Vec<_>>(), table.len());
+                        }
                     }
                 }
                 if run.outcome == Outcome::Accept {
                     let returned = run.returned.as_ref().unwrap();
                     if returned.hash != history[r].1 {
-                        mon.count("client:returned_certificate_hash_differs_from_queried_hash");
+                        mon.count("observation:client_returned_certificate_whose_hash_differs_from_queried_hash");
                     }
                     // reference over everything the provider has answered so far, keyed by request
                     let tables: Vec<&Arc<Table>> = history[..=r].iter().map(|(t, _)| t).collect();
